@@ -104,6 +104,7 @@ def _work(args):
         out = Result().pack()
         out["error"] = "shard %r: %s" % (shard, traceback.format_exc())
     out["wall"] = time.time() - t0
+    out["shard"] = repr(shard)[:120]
     return out
 
 
@@ -185,6 +186,7 @@ def run_check(modname, tier, seed):
     k = seed % max(1, len(order))
     order = order[k:] + order[:k]
     jobs = [(shards[i], tier, seed) for i in order]
+    job_index = {repr(shards[i])[:120]: i for i in order}
 
     total = Result()
     errors = []
@@ -194,18 +196,33 @@ def run_check(modname, tier, seed):
     import concurrent.futures as cf
 
     with cf.ProcessPoolExecutor(nproc, mp_context=ctx, initializer=_init_worker, initargs=(modname,)) as pool:
-        futs = [pool.submit(_work, j) for j in jobs]
+        futs = {pool.submit(_work, j): k for k, j in enumerate(jobs)}
+        done_jobs = set()
+        pool_broken = False
+        outs = []
         for fut in cf.as_completed(futs):
             try:
                 out = fut.result()
             except Exception as e:  # a worker died (killed, out of memory, segfault): never hang, never guess
-                errors.append("worker failure: %r" % (e,))
+                pool_broken = True
+                sys.stderr.write("worker failure: %r -- re-running unfinished shards in isolated processes\n" % (e,))
                 for f in futs:
                     f.cancel()
                 break
+            done_jobs.add(futs[fut])
+            outs.append(out)
+    crashed = []
+    if pool_broken:
+        rest = [k for k in range(len(jobs)) if k not in done_jobs]
+        more, crashed = _isolated(modname, tier, seed, [order[k] for k in rest], nproc)
+        outs.extend(more)
+    if True:
+        for out in outs:
             if out["error"]:
                 errors.append(out["error"])
                 continue
+            for v in out["violations"]:
+                v["shard_index"] = job_index.get(out.get("shard", ""))
             total.counters.update(out["counters"])
             total.outcomes.update(out["outcomes"])
             total.notes.update(out["notes"])
@@ -213,11 +230,16 @@ def run_check(modname, tier, seed):
             for s in out["samples"]:
                 total.sample(s, cap=6)
             total.violations.extend(out["violations"])
-            shard_walls.append(out["wall"])
+            shard_walls.append((out["wall"], out.get("shard", "")))
     if errors:
         sys.stderr.write("INFRASTRUCTURE ERROR in %d shard(s):\n%s\n" % (len(errors), errors[0]))
         return 2
 
+    for si in crashed:
+        total.violations.append({"signature": {"check": "%s.crash" % prop.lower(), "shard": repr(shards[si])[:120]},
+                                 "case": {"crash_shard_index": si, "shard": repr(shards[si])[:120], "tier": tier, "seed": seed, "module": modname},
+                                 "reason": "the process executing shard %r died (segmentation fault / killed / out of memory) instead of returning" % (shards[si],),
+                                 "observed": None, "expected": None, "shard_index": si})
     # ---- triage violations
     known = load_known()
     by_sig = collections.OrderedDict()
@@ -246,14 +268,29 @@ def run_check(modname, tier, seed):
         for v in fresh[:MAX_REPLAYS]:
             want = short_hash(_jsonable(v["signature"]))
             ok = True
-            for _ in range(2):
-                try:
-                    again = mod.replay(v["case"])
-                except Exception:
-                    again = []
-                    sys.stderr.write("replay raised: %s\n" % traceback.format_exc())
-                if want not in {short_hash(_jsonable(a["signature"])) for a in again}:
-                    ok = False
+            if "crash_shard_index" in v["case"]:
+                ok = all(_shard_in_subprocess(modname, tier, seed, v["case"]["crash_shard_index"]) is None for _ in range(2))
+            else:
+                for _ in range(2):
+                    try:
+                        again = mod.replay(v["case"])
+                    except Exception:
+                        again = []
+                        sys.stderr.write("replay raised: %s\n" % traceback.format_exc())
+                    if want not in {short_hash(_jsonable(a["signature"])) for a in again}:
+                        ok = False
+                if not ok and v.get("shard_index") is not None:
+                    # not reproducible from the single case: the failure may depend on state left behind by earlier
+                    # cases of the same shard.  Re-execute the whole shard as a history, twice, in fresh processes.
+                    ok = True
+                    for _ in range(2):
+                        o = _shard_in_subprocess(modname, tier, seed, v["shard_index"])
+                        if o is None or want not in {short_hash(_jsonable(a["signature"])) for a in o["violations"]}:
+                            ok = False
+                    if ok:
+                        v = dict(v, case={"history_shard_index": v["shard_index"], "shard": repr(shards[v["shard_index"]])[:120], "tier": tier, "seed": seed,
+                                          "module": modname, "signature": _jsonable(v["signature"]), "last_case": _jsonable(v["case"])},
+                                 reason=v["reason"] + "  [history-dependent: reproduces only when the whole shard is executed in order in one process]")
             if not ok:
                 nonrepro += 1
                 sys.stderr.write("NON-REPRODUCIBLE failure (infrastructure): %s\n" % json.dumps(_jsonable(v["signature"])))
@@ -293,7 +330,8 @@ def run_check(modname, tier, seed):
         "violations_reported": reported,
         "non_reproducible": nonrepro,
         "config": "src (matid/ext compiled from the working tree)" + (" + bin differential" if desc.get("bin_differential") else ""),
-        "slowest_shard_s": round(max(shard_walls), 2) if shard_walls else 0,
+        "slowest_shard_s": round(max(shard_walls)[0], 2) if shard_walls else 0,
+        "slowest_shards": [[round(w, 1), sh] for w, sh in sorted(shard_walls, reverse=True)[:5]],
     }
     ev = {
         "property_id": prop,
@@ -317,6 +355,41 @@ def run_check(modname, tier, seed):
            cov["distinct_outcomes"], len(fresh), len(known_hits), ev["wall_s"])
     )
     return exit_code
+
+
+def _shard_in_subprocess(modname, tier, seed, idx, timeout=3600):
+    import pickle
+    import tempfile
+
+    fd, out = tempfile.mkstemp(suffix=".pickle", dir=os.path.join(VERIF, "build") if os.path.isdir(os.path.join(VERIF, "build")) else None)
+    os.close(fd)
+    try:
+        r = subprocess.run([sys.executable, "-m", "mc.worker", modname, tier, str(seed), str(idx), out], capture_output=True, text=True, timeout=timeout, cwd=VERIF)
+        if r.returncode != 0 or os.path.getsize(out) == 0:
+            return None
+        with open(out, "rb") as fh:
+            return pickle.load(fh)
+    except subprocess.TimeoutExpired:
+        return None
+    finally:
+        try:
+            os.unlink(out)
+        except OSError:
+            pass
+
+
+def _isolated(modname, tier, seed, indices, nproc):
+    """Run the given shards one per fresh process; returns (results, indices that crashed)."""
+    from concurrent.futures import ThreadPoolExecutor
+
+    outs, crashed = [], []
+    with ThreadPoolExecutor(max(1, nproc)) as tp:
+        for idx, o in zip(indices, tp.map(lambda i: _shard_in_subprocess(modname, tier, seed, i), indices)):
+            if o is None:
+                crashed.append(idx)
+            else:
+                outs.append(o)
+    return outs, crashed
 
 
 def validate_evidence(path):
@@ -350,7 +423,16 @@ def run_replay(modname, path):
     mod = importlib.import_module(modname)
     with open(path) as fh:
         body = json.load(fh)
-    viols = mod.replay(body["case"])
+    case = body["case"]
+    if "crash_shard_index" in case:
+        o = _shard_in_subprocess(modname, case["tier"], case["seed"], case["crash_shard_index"])
+        viols = [] if o is not None else [{"reason": body["reason"]}]
+    elif "history_shard_index" in case:
+        o = _shard_in_subprocess(modname, case["tier"], case["seed"], case["history_shard_index"])
+        want = short_hash(case["signature"])
+        viols = [a for a in (o["violations"] if o else []) if short_hash(_jsonable(a["signature"])) == want]
+    else:
+        viols = mod.replay(case)
     print("replaying %s" % path)
     print("recorded: %s" % body["reason"])
     if not viols:
